@@ -12,6 +12,7 @@
 (* kind "nautilus": proposals of the outer union filtered by the networks. *)
 (* kind "merge": pool path, parent counters vs sum of the workers'.        *)
 (* kind "volume": closed-form ellipsoid volume vs the matrix of contains().*)
+(* kind "alloc": per-member proposal counts of successive refills.         *)
 (***************************************************************************)
 EXTENDS UnionSampling, Sequences, Json, IOUtils, TLC
 
@@ -40,9 +41,19 @@ MergeFails(r) ==
      F("MG_Own", r.dnsamp = r.wnsamp /\ r.dnrej = r.wnrej)
   \cup F("MG_Outer", r.donsamp = r.wonsamp /\ r.donrej = r.wonrej)
   \cup F("MG_Cache", r.dcache = r.wcache)
+\* kind "alloc": the numbers of proposals the members of one union were asked for in successive refills (vrelm =
+\* member volumes relative to their sum, x1000).  The rule UnionSampling.tla proves uniform draws the member of every
+\* proposal at random with probability proportional to volume: when some member has 1000 p (1 - p) >= 25, eight
+\* refills with one and the same allocation mean that the allocation is a function of the volumes (every refill then
+\* carries the same rounding error, so the members' expected shares differ from their volumes).
+AllocFails(r) ==
+     F("RD_AllocationRandom", (Len(r.counts) >= 8 /\ \E k \in DOMAIN r.vrelm : r.vrelm[k] * (1000 - r.vrelm[k]) >= 25000)
+                                  => Cardinality({r.counts[j] : j \in DOMAIN r.counts}) >= 2)
+  \cup F("RD_AllocationTotal", \A j \in DOMAIN r.counts : SumS(r.counts[j]) = 1000)
 VolumeFails(r) == F("EV_ClosedForm", AbsI(r.resid) <= 1000) \cup F("EV_MatrixOfContains", AbsI(r.residA) <= 1000)
 Fails(r) == CASE r.kind = "union" -> UnionFails(r) [] r.kind = "nautilus" -> NautilusFails(r)
-              [] r.kind = "merge" -> MergeFails(r) [] r.kind = "volume" -> VolumeFails(r) [] OTHER -> {"NoSuchRecord"}
+              [] r.kind = "merge" -> MergeFails(r) [] r.kind = "volume" -> VolumeFails(r)
+              [] r.kind = "alloc" -> AllocFails(r) [] OTHER -> {"NoSuchRecord"}
 TInit == l = 0 /\ m = [c \in Cells |-> 1] /\ cover = [e \in Ells |-> Cells] /\ cube = Cells
 TNext == /\ l < Len(Log) /\ l' = l + 1 /\ UNCHANGED vars
          /\ LET f == Fails(Log[l + 1]) IN f = {} \/ PrintT(<<"@@F", l + 1, f>>)
